@@ -712,6 +712,28 @@ def check_documents_verbatim(ctx, an, model):
                        "the parser is given the document as it was read (only decoded)" if bad is None else
                        "the document is edited as text by %s before it is parsed" % bad, node=n)
     ctx.need(n_ret >= 5, "fewer than 5 dumps return statements found")
+    # ... and the methods analysed are the methods that run: nothing in the package replaces a format's dumps / loads after the
+    # class was defined (an __init_subclass__ / decorator / registry hook that wraps them edits the document outside the rules' view)
+    n_repl = 0
+    for f in an.fns():
+        for x in ast.walk(f.node) if model.enclosing_function(f.node) is f.parent or True else ():
+            tgt = None
+            if isinstance(x, ast.Assign):
+                for t in x.targets:
+                    if isinstance(t, ast.Attribute) and t.attr in ("loads", "dumps"):
+                        tgt = t
+            elif isinstance(x, ast.Call) and isinstance(x.func, ast.Name) and x.func.id == "setattr" and len(x.args) == 3:
+                a1 = x.args[1]
+                if (isinstance(a1, ast.Constant) and a1.value in ("loads", "dumps")) or (
+                        not isinstance(a1, ast.Constant) and f.cls is not None and f.cls.is_subclass_of(CF)):
+                    tgt = x
+            if tgt is not None and model.enclosing_function(x) is f:
+                n_repl += 1
+                ctx.ob("wrapper.methods-not-replaced", f, x, False,
+                       "%s replaces a format's %s at run time: the document passes through code the format classes do not show "
+                       "(what a binary format reads is no longer what was read from the file)" % (f.qualname, ast.unparse(tgt)[:40]), node=x)
+    if n_repl == 0:
+        ctx.ob("wrapper.methods-not-replaced", CF, "no assignment to .loads / .dumps", True, "the format methods are the ones defined in the classes", nontrivial=False)
 
 
 def model_is_import(fn, name):
